@@ -434,9 +434,23 @@ func (m *Mux) serveHTTP(w http.ResponseWriter, r *http.Request) error {
 		})
 	}
 
+	// endRPC reports the end of an RPC that fails after stats.Begin on a path
+	// that does not reach the regular stats.End of its transport below.
+	endRPC := func(err error) {
+		if sh := m.opts.statsHandler; sh != nil {
+			sh.HandleRPC(ctx, &stats.End{
+				Client:    false,
+				BeginTime: beginTime,
+				EndTime:   time.Now(),
+				Error:     err,
+			})
+		}
+	}
+
 	if isWebsocket {
 		conn, _, _, err := ws.UpgradeHTTP(r, w)
 		if err != nil {
+			endRPC(err)
 			return err
 		}
 		defer conn.Close()
@@ -467,13 +481,16 @@ func (m *Mux) serveHTTP(w http.ResponseWriter, r *http.Request) error {
 			f := ws.NewCloseFrame(ws.NewCloseFrameBody(code, msg))
 			b, err := ws.CompileFrame(f)
 			if err != nil {
+				endRPC(herr)
 				return err
 			}
 			if _, err := conn.Write(b); err != nil {
+				endRPC(herr)
 				return err
 			}
 		} else {
 			if _, err := conn.Write(ws.CompiledClose); err != nil {
+				endRPC(err)
 				return err
 			}
 		}
@@ -501,6 +518,7 @@ func (m *Mux) serveHTTP(w http.ResponseWriter, r *http.Request) error {
 	if cz := m.opts.compressors[contentEncoding]; cz != nil {
 		z, err := cz.Decompress(r.Body)
 		if err != nil {
+			endRPC(err)
 			return err
 		}
 		body = z
@@ -515,6 +533,7 @@ func (m *Mux) serveHTTP(w http.ResponseWriter, r *http.Request) error {
 		w.Header().Set("Content-Encoding", acceptEncoding)
 		z, err := cz.Compress(w)
 		if err != nil {
+			endRPC(err)
 			return err
 		}
 		zc = z
